@@ -244,6 +244,47 @@ func init() {
 		}
 		return VBool{BoolC(fa.Fn == fb.Fn && fa.Fn != nil)}
 	}
+	// RunUntilBlocked(f): run a goroutine body until it returns (false) or blocks on a
+	// channel operation with nothing ready (true); the harness continues either way
+	intrinsics[S+"RunUntilBlocked"] = func(e *Exec, a []Value) (res Value) {
+		f := a[0].(VFunc)
+		d0, s0 := e.depth, len(e.fnStack)
+		defer func() {
+			if r := recover(); r != nil {
+				if pe, ok := r.(pathEnd); ok && strings.HasPrefix(pe.why, "BLOCKED") {
+					e.depth, e.fnStack = d0, e.fnStack[:s0]
+					e.blocked++
+					res = VBool{BoolC(true)}
+					return
+				}
+				panic(r)
+			}
+		}()
+		e.callClosure(f, nil)
+		return VBool{BoolC(false)}
+	}
+	// RunWithEnv(f, env): like RunUntilBlocked, but whenever f is about to block the scripted
+	// environment env gets a turn; f blocks for good once env reports it has nothing left to do
+	intrinsics[S+"RunWithEnv"] = func(e *Exec, a []Value) (res Value) {
+		f := a[0].(VFunc)
+		d0, s0, n0 := e.depth, len(e.fnStack), len(e.envStack)
+		e.envStack = append(e.envStack, a[1].(VFunc))
+		defer func() {
+			e.envStack = e.envStack[:n0]
+			e.envRunning = false
+			if r := recover(); r != nil {
+				if pe, ok := r.(pathEnd); ok && strings.HasPrefix(pe.why, "BLOCKED") {
+					e.depth, e.fnStack = d0, e.fnStack[:s0]
+					e.blocked++
+					res = VBool{BoolC(true)}
+					return
+				}
+				panic(r)
+			}
+		}()
+		e.callClosure(f, nil)
+		return VBool{BoolC(false)}
+	}
 	intrinsics[S+"Symbolic"] = func(e *Exec, a []Value) Value { return VBool{BoolC(true)} }
 
 	verifHooks["verifBool"] = func(e *Exec, a []Value) Value {
